@@ -54,13 +54,15 @@ func fullGrid() []report {
 	return out
 }
 
-// four reports that together use every value of the grid; weights (CU) 10 / 1000 / 10 / 100
+// four reports that together use every value of the grid (weights (CU) 10 / 1000 / 10 / 100) and a perfect one
 func subGrid() []report {
 	return []report{
 		{name: "l0.01/s0.1/a1", lat: dec("0.01"), sync: dec("0.1"), avail: dec("1"), cu: 10},
 		{name: "l1/s10/a0.5", lat: dec("1"), sync: dec("10"), avail: dec("0.5"), cu: 1000},
 		{name: "l100/s0.1/a1", lat: dec("100"), sync: dec("0.1"), avail: dec("1"), cu: 10},
 		{name: "l100/s10/a0.01", lat: dec("100"), sync: dec("10"), avail: dec("0.01"), cu: 100},
+		// a perfect report: the QoS score is exactly 0 (the benchmark of a cluster can be 0)
+		{name: "l0/s0/a1", lat: dec("0"), sync: dec("0"), avail: dec("1"), cu: 10},
 	}
 }
 
